@@ -43,29 +43,31 @@ Proof.
 Qed.
 
 (* ---------------------------------------------------------------- scanning what was emitted *)
+(* the chunk rule copies the whole match (the fix of F-C17-c is in place) *)
+Lemma cw_chunk_whole_true : cw_chunk_whole = true.
+Proof. reflexivity. Qed.
+
 Lemma cw_chunk_char c tail acc :
-  c <> 34 -> c <> 10 -> c <> 92 -> c <> 0 ->
-  cw_lex_str (c :: tail) SsNorm acc = cw_lex_str tail SsNorm (c :: acc).
+  c <> 34 -> c <> 10 -> c <> 92 ->
+  cw_lex_str_m true (c :: tail) SsNorm acc = cw_lex_str_m true tail SsNorm (c :: acc).
 Proof.
-  intros H1 H2 H3 H4. cbn [cw_lex_str].
-  apply N.eqb_neq in H1, H2, H3, H4. rewrite H1, H2, H3, H4. reflexivity.
+  intros H1 H2 H3. cbn [cw_lex_str_m].
+  apply N.eqb_neq in H1, H2, H3. rewrite H1, H2, H3. destruct (c =? 0); reflexivity.
 Qed.
 
-Lemma cw_lex_str_escaped s : forall acc rest,
-  cw_nul_free s ->
-  cw_lex_str (cw_escape s ++ 34 :: rest) SsNorm acc = Some (rev acc ++ s, rest).
+Lemma cw_lex_str_escaped_m s : forall acc rest,
+  cw_lex_str_m true (cw_escape s ++ 34 :: rest) SsNorm acc = Some (rev acc ++ s, rest).
 Proof.
-  induction s as [|c s IH]; intros acc rest Hn.
+  induction s as [|c s IH]; intros acc rest.
   - cbn. rewrite app_nil_r. reflexivity.
-  - inversion Hn as [|? ? Hc Hs]; subst.
-    rewrite cw_escape_cons, cw_escape_single, <- app_assoc.
+  - rewrite cw_escape_cons, cw_escape_single, <- app_assoc.
     set (tail := cw_escape s ++ 34 :: rest).
     assert (Hstep : forall e b, cw_assoc e cw_lexer_escapes = Some b -> cw_is_digit e = false -> (e =? 10) = false ->
-                    cw_lex_str (92 :: e :: tail) SsNorm acc = cw_lex_str tail SsNorm (b :: acc)).
-    { intros e b Ha Hd He. cbn [cw_lex_str]. change (92 =? 34) with false. change (92 =? 10) with false.
+                    cw_lex_str_m true (92 :: e :: tail) SsNorm acc = cw_lex_str_m true tail SsNorm (b :: acc)).
+    { intros e b Ha Hd He. cbn [cw_lex_str_m]. change (92 =? 34) with false. change (92 =? 10) with false.
       change (92 =? 92) with true. cbn iota. rewrite Hd, He, Ha. reflexivity. }
-    assert (Hfin : forall b, cw_lex_str tail SsNorm (b :: acc) = Some (rev acc ++ b :: s, rest)).
-    { intros b. unfold tail. rewrite IH by assumption. cbn [rev]. rewrite <- app_assoc. reflexivity. }
+    assert (Hfin : forall b, cw_lex_str_m true tail SsNorm (b :: acc) = Some (rev acc ++ b :: s, rest)).
+    { intros b. unfold tail. rewrite IH. cbn [rev]. rewrite <- app_assoc. reflexivity. }
     unfold cw_esc1.
     destruct (N.eqb_spec c 92) as [->|H1]; [cbn [app]; rewrite (Hstep 92 92) by reflexivity; apply Hfin|].
     destruct (N.eqb_spec c 10) as [->|H2]; [cbn [app]; rewrite (Hstep 110 10) by reflexivity; apply Hfin|].
@@ -77,20 +79,25 @@ Proof.
     cbn [app]. rewrite cw_chunk_char by assumption. apply Hfin.
 Qed.
 
-Theorem cw_string_roundtrip s : cw_nul_free s -> cw_lex_string (cw_emit_string s) = Some s.
+Lemma cw_lex_str_escaped s acc rest :
+  cw_lex_str (cw_escape s ++ 34 :: rest) SsNorm acc = Some (rev acc ++ s, rest).
+Proof. unfold cw_lex_str. rewrite cw_chunk_whole_true. apply cw_lex_str_escaped_m. Qed.
+
+(* EVERY byte string (NUL included, now that the chunk rule copies yyleng bytes) *)
+Theorem cw_string_roundtrip s : cw_lex_string (cw_emit_string s) = Some s.
 Proof.
-  intros Hn. unfold cw_lex_string, cw_emit_string.
+  unfold cw_lex_string, cw_lex_string_m, cw_emit_string. rewrite cw_chunk_whole_true.
   change (34 :: cw_escape s ++ [34]) with (34 :: (cw_escape s ++ 34 :: [])).
-  rewrite cw_lex_str_escaped by assumption. reflexivity.
+  rewrite cw_lex_str_escaped_m. reflexivity.
 Qed.
 
 (* the emitted literal is ONE string token, whatever follows it: nothing inside a name, key or value
    can end the literal early *)
 Theorem cw_string_token s rest :
-  cw_nul_free s -> cw_next (cw_emit_string s ++ rest) = NxTok (CwTStr s) rest.
+  cw_next (cw_emit_string s ++ rest) = NxTok (CwTStr s) rest.
 Proof.
-  intros Hn. unfold cw_emit_string. cbn [app cw_next]. change (34 =? 34) with true. cbn iota.
-  rewrite <- app_assoc. cbn [app]. rewrite cw_lex_str_escaped by assumption. reflexivity.
+  unfold cw_emit_string. cbn [app cw_next]. change (34 =? 34) with true. cbn iota.
+  rewrite <- app_assoc. cbn [app]. rewrite cw_lex_str_escaped. reflexivity.
 Qed.
 
 (* ---------------------------------------------------------------- the lexer driver *)
@@ -109,10 +116,9 @@ Proof.
 Qed.
 
 Lemma cw_lex_string_tok s r :
-  cw_nul_free s ->
   cw_lex_s (cw_emit_string s ++ r) 0 = match cw_lex_s r 0 with Some l => Some (CwTStr s :: l) | None => None end.
 Proof.
-  intros Hn. pose proof (cw_string_token s r Hn) as H.
+  pose proof (cw_string_token s r) as H.
   unfold cw_emit_string in *. cbn [app] in *. rewrite <- app_assoc in *.
   replace (cw_escape s ++ [34] ++ r) with ((cw_escape s ++ [34]) ++ r) in * by (rewrite <- app_assoc; reflexivity).
   apply cw_lex_tok. exact H.
@@ -183,20 +189,20 @@ Qed.
    it, followed by a blank, is exactly ONE token that carries the key (or a keyword token on which
    the parser fails): a key cannot contribute a second token, hence no statement. *)
 Theorem cw_key_token k r :
-  cw_nul_free k -> cw_follow_ok r ->
+  cw_follow_ok r ->
   cw_next (cw_emit_key CwMatch k ++ r) =
     NxTok (if cw_mem k cw_writer_keywords then CwTId k
            else if cw_ident_whole k then (if cw_mem k cw_lexer_keywords then CwTKw k else CwTId k)
            else CwTStr k) r.
 Proof.
-  intros Hn Hr. unfold cw_emit_key, cw_ident_ok.
+  intros Hr. unfold cw_emit_key, cw_ident_ok.
   destruct (cw_mem k cw_writer_keywords) eqn:Hk.
   - cbn [app]. apply cw_at_ident_token; [|assumption].
     apply (cw_mem_forallb cw_ident_whole k cw_writer_keywords Hk cw_writer_keywords_are_identifiers).
     intros a b Hab Hb. apply cw_beq_eq in Hab. subst. assumption.
   - destruct (cw_ident_whole k) eqn:Hi.
     + apply cw_ident_token; assumption.
-    + apply cw_string_token. assumption.
+    + apply cw_string_token.
 Qed.
 
 (* ---------------------------------------------------------------- template names after `import` *)
@@ -217,14 +223,39 @@ Proof.
   rewrite cw_escape_cons, cw_escape_single, cw_esc1_plain, IH by assumption. reflexivity.
 Qed.
 
-(* the name after `import` is one string token if it is escaped (proposed fix) or contains no byte that
-   would need escaping (negated signature of the recorded finding import-unescaped) *)
-Theorem cw_import_token esc s rest :
-  cw_nul_free s -> (esc = true \/ forallb cw_plainb s = true) ->
-  cw_next ((if esc then cw_emit_string s else 34 :: s ++ [34]) ++ rest) = NxTok (CwTStr s) rest.
+(* the name after `import` is one string token: it is written with EmitString (the fix of F-C17-d is in place) *)
+Lemma cw_import_escaped_true : cw_src_import_escaped = true.
+Proof. reflexivity. Qed.
+
+Theorem cw_import_token s rest :
+  cw_next ((if cw_src_import_escaped then cw_emit_string s else 34 :: s ++ [34]) ++ rest) = NxTok (CwTStr s) rest.
+Proof. rewrite cw_import_escaped_true. apply cw_string_token. Qed.
+
+(* ---------------------------------------------------------------- composed names (F-C17-e fixed) *)
+Fixpoint cw_join (sep : N) (l : list cw_bytes) : cw_bytes :=
+  match l with
+  | [] => []
+  | a :: r => match r with [] => a | _ => a ++ sep :: cw_join sep r end
+  end.
+
+Lemma cw_split_nonempty sep s : forall cur, cw_split sep s cur <> [].
+Proof. induction s as [|c s IH]; intros cur; cbn [cw_split]; [discriminate|]. destruct (c =? sep); [discriminate|apply IH]. Qed.
+
+Lemma cw_join_split sep s : forall cur, cw_join sep (cw_split sep s cur) = rev cur ++ s.
 Proof.
-  intros Hn [->|Hp]; [apply cw_string_token; assumption|].
-  destruct esc; [apply cw_string_token; assumption|].
-  replace (34 :: s ++ [34]) with (cw_emit_string s) by (unfold cw_emit_string; rewrite cw_escape_plain by assumption; reflexivity).
-  apply cw_string_token. assumption.
+  induction s as [|c s IH]; intros cur; cbn [cw_split].
+  - cbn. rewrite app_nil_r. reflexivity.
+  - destruct (N.eqb_spec c sep) as [->|Hne].
+    + cbn [cw_join]. destruct (cw_split sep s []) eqn:E; [exfalso; exact (cw_split_nonempty sep s [] E)|].
+      rewrite <- E, IH. reflexivity.
+    + rewrite IH. cbn [rev]. rewrite <- app_assoc. reflexivity.
+Qed.
+
+(* with exactly two parts required, the name the object is registered under (host!name) IS the requested name *)
+Theorem cw_effective_name full n h :
+  cw_name_parts_m true true full = Some (n, Some h) -> h ++ 33 :: n = full.
+Proof.
+  unfold cw_name_parts_m. pose proof (cw_join_split 33 full []) as J.
+  destruct (cw_split 33 full []) as [|h' [|n' [|x rest]]]; intros H; inversion H; subst.
+  cbn in J. exact J.
 Qed.
